@@ -189,6 +189,21 @@ def po_proportional(S):
     S.check("amount1(k*L)==k*amount1(L)", S.eq(b1, k * a1))
 
 
+@proof("C07", "get_liquidity,get_amounts/order-of-the-two-ticks-is-immaterial", strength="U", contracts=SQRT_CONTRACT, shapes=SHAPES)
+def po_tick_order(S):
+    """Both functions accept the range as an unordered pair of ticks (they order the bounds themselves): every other obligation, stated
+       for tickA < tickB, therefore holds for a reversed pair too."""
+    sp, tA, tB = _price_and_range(S)
+    d0, d1 = _decimals(S)
+    a0 = S.dec("amount0", 0, MAX_AMOUNT)
+    a1 = S.dec("amount1", 0, MAX_AMOUNT)
+    L = S.int("liquidity", 0, 10 ** 40)
+    S.check("get_liquidity(tB,tA)==get_liquidity(tA,tB)", lm.get_liquidity(sp, tB, tA, a0, a1, d0, d1) == lm.get_liquidity(sp, tA, tB, a0, a1, d0, d1))
+    x0, x1 = lm.get_amounts(sp, tA, tB, L, d0, d1)
+    y0, y1 = lm.get_amounts(sp, tB, tA, L, d0, d1)
+    S.check("get_amounts(tB,tA)==get_amounts(tA,tB)", S.eq(x0, y0) and S.eq(x1, y1))
+
+
 @proof("C07", "get_amounts/linear-in-liquidity", strength="U", contracts=SQRT_CONTRACT, shapes=SHAPES)
 def po_linear(S):
     """amounts(L) == L x amounts(1) and amounts(L1 + L2) == amounts(L1) + amounts(L2): the form in which callers (value conservation
